@@ -43,7 +43,7 @@ CLAIMS = {
         ref="4 C05"),
     "C06": dict(
         technique="rapid-generated source views x request scripts executed by an independent reference receiver against the real Send; protocol monitor over the complete packet log; termination decided by goroutine quiescence",
-        text="The real sender is driven by a reference receiver written only from the protocol description (any subset/order of requests, eager requests racing the STAT stream, unpaced bursts of up to 300 requests on capacity-0..64 streams, slow reader, illegal requests). Every packet it emits is checked: STAT sequence equals the view's listing in component order followed by exactly one marker, per-id framing (payload concatenation = file bytes, exactly one terminator, nothing after, nothing unrequested), FIN echoed exactly once then success, illegal ids fail the call, progress callbacks monotone with one final call. Sampled schedules and scripts, no proof.",
+        text="The real sender is driven by a reference receiver written only from the protocol description (any subset/order of requests, eager requests racing the STAT stream, unpaced bursts of up to 300 requests on capacity-0..64 streams, slow reader, illegal requests; one case in four follows, in the same process, a Send that was cut off in the middle of a file). Every packet it emits is checked: STAT sequence equals the view's listing in component order followed by exactly one marker, per-id framing (payload concatenation = file bytes, exactly one terminator, nothing after, nothing unrequested), FIN echoed exactly once then success, illegal ids fail the call, progress callbacks monotone with one final call. Sampled schedules and scripts, no proof.",
         note="Closed-loop pairing of fsutil's own two ends is avoided; the trusted peer is harness/refrecv.go. Requests for not-yet-announced ids and for link members are outside the domain.",
         ref="4 C06"),
     "C07": dict(
@@ -73,17 +73,17 @@ CLAIMS = {
         ref="4 C13"),
     "C15": dict(
         technique="rapid-generated (source tree, destination tree, arguments, options) against an executable overlay model written from the statement; repeat-application (idempotence) as a metamorphic relation",
-        text="Source and destination trees over a 4-name universe (so every type pair collides) are combined with source arguments ('/', any entry, wildcards), destination arguments (existing directory/non-directory, new, nested new, trailing separator) and the options dir-contents / always-replace / wildcards. The harness's overlay model (destination selection, merge, replace, conflict => error with obstacle intact, always-replace) must agree with the real copy on success vs error and, on success, on the complete resulting tree; the same copy is then repeated and must agree with the model again and change nothing when its landing place is unchanged. Sampled, no proof.",
+        text="Source and destination trees over a 4-name universe (so every type pair collides) are combined with source arguments ('/', any entry, wildcards), destination arguments (existing directory/non-directory, new, nested new, trailing separator) and the options dir-contents / always-replace / wildcards. The harness's overlay model (destination selection, merge, replace, conflict => error with obstacle intact, always-replace) must agree with the real copy on success vs error and, on success, on the complete resulting tree; the same copy is then repeated and must agree with the model again and change nothing when its landing place is unchanged. A second sub-run states 'wildcard sources behave as the union of their matches' as a metamorphic relation for any destination argument: the wildcard copy must give the verdict and tree of copying its matches one by one. Sampled, no proof.",
         note="Destination arguments through symlinks are C14's domain; metadata of merged directories and of created parents is unspecified; wildcard sources go to directory-like destinations and are not combined with hard-linked sources.",
         ref="4 C15"),
     "C03": dict(
         technique="rapid-generated hostile packet scripts (legal STAT sequences with 0-3 mutations and packet injections) executed by a reference sender against the real Receive inside a chrooted sub-process; lstat-only snapshot of the whole jail; independent stream classification; native fuzz over the same generator in thorough",
-        text="A hostile reference sender feeds the real receiver mutated streams ('..', '.', empty, absolute, unclean, backslashed and NUL paths; unordered, duplicated and parent-less entries; children of files and symlinks; hard links to unknown/escaping names incl. special mode bits; symlinks with xattrs and outside targets; unsolicited, late and oversized DATA; early FIN/ERR/marker/EOF) into destinations that already hold symlinks to an outside sentinel tree, in normal, merge, metadata-only and merge+metadata-only mode. The receiver runs chrooted in a throw-away jail; the parent compares an lstat snapshot of everything outside dest (incl. dest's own entry and its parent) bit for bit, and checks that a stream the independent classification calls offending at entry k fails and applies nothing from k on, and that a process crash never happens. Sampled + coverage-guided (thorough), no proof.",
+        text="A hostile reference sender feeds the real receiver mutated streams ('..', '.', empty, absolute, unclean, backslashed and NUL paths; unordered, duplicated and parent-less entries; children of files and symlinks; hard links to unknown/escaping names incl. special mode bits; symlinks with xattrs and outside targets; unsolicited, late and oversized DATA; early FIN/ERR/marker/EOF; legal symlink entries named like the writer's temporary files) into destinations that already hold symlinks to an outside sentinel tree, in normal, merge, metadata-only and merge+metadata-only mode. The receiver runs chrooted in a throw-away jail; the parent compares an lstat snapshot of everything outside dest (incl. dest's own entry and its parent) bit for bit, and checks that a stream the independent classification calls offending at entry k fails and applies nothing from k on, and that a process crash never happens. Sampled + coverage-guided (thorough), no proof.",
         note="TOCTOU races with a concurrently changing destination are out of scope. A hard link naming an earlier directory/symlink/link member is 'unspecified' (containment only).",
         ref="4 C03"),
     "C14": dict(
         technique="rapid-generated symlink-laden (source tree, destination tree, src path, dst path, options) through copy.Copy inside a chrooted sub-process; lstat-only snapshot of the jail; byte provenance through unique file contents",
-        text="Source and destination trees are planted with symlinks of every hostile shape (absolute to a sentinel tree, '..' beyond the root, dangling, to not-yet-existing outside names, loops) and the src/dst arguments are drawn to pass through them; follow-links, wildcards, always-replace, dir-contents, include/exclude patterns and the Mode/ModeStr/Chown options are varied, and a steered scenario makes the destination parent of the first selected entry a symlink leading outside. The real Copy runs chrooted; afterwards every entry outside the destination root (sentinel tree and the entire source root) must be bit-identical incl. ctime, nothing may have been created there, and every new or changed regular file under the destination root must carry the unique bytes of a file inside the source root. Sampled, no proof.",
+        text="Source and destination trees are planted with symlinks of every hostile shape (absolute to a sentinel tree, '..' beyond the root, dangling, to not-yet-existing outside names, loops) and the src/dst arguments are drawn to pass through them; follow-links, wildcards, always-replace, dir-contents, include/exclude patterns and the Mode/ModeStr/Chown/Utime options are varied, source trees contain hard-link groups, and a steered scenario makes the destination parent of the first selected entry a symlink leading outside. The real Copy runs chrooted; afterwards every entry outside the destination root (sentinel tree and the entire source root) must be bit-identical incl. ctime, nothing may have been created there, and every new or changed regular file under the destination root must carry the unique bytes of a file inside the source root. Sampled, no proof.",
         note="TOCTOU with concurrent mutation is out of scope; the exact landing place for symlinked arguments is not asserted beyond containment and byte provenance.",
         ref="4 C14"),
     "C17": dict(
@@ -93,13 +93,13 @@ CLAIMS = {
         ref="4 C17"),
     "C18": dict(
         technique="rapid-generated symlink graphs x request lists through FollowLinks; oracle = chroot-style reference resolver on the tree model (coverage obligations), structural invariants, Walk-call counting for termination, end-to-end transfer with the requests as follow-paths",
-        text="FollowLinks is run on generated trees with relative, absolute, escaping, chained, cyclic, self-referential and dangling links and request lists with existing, missing, through-link and wildcard paths, on on-disk and synthetic file systems wrapped in a Walk counter. Checked: termination (<=10^4 Walk calls), result sorted / prefix-free / relative / empty when a request resolves to the root, every symlink the reference resolver traverses and every final location covered by an element, and after a real transfer with those follow-paths every request resolves to the same location, type and bytes in the destination. Sampled, no proof.",
+        text="FollowLinks is run on generated trees with relative, absolute, escaping, chained, cyclic, self-referential and dangling links and request lists with existing, missing, through-link and wildcard paths (one case in six steered to 'a requested directory plus a link into it whose target leads out again'), on on-disk and synthetic file systems wrapped in a Walk counter. Checked: termination (<=10^4 Walk calls), result sorted / prefix-free / relative / empty when a request resolves to the root, every symlink the reference resolver traverses and every final location covered by an element, and after a real transfer with those follow-paths every request resolves to the same location, type and bytes in the destination. Sampled, no proof.",
         note="Three root causes in followlinks.go (guard keyed by link, wildcard in a middle component, lexical cleaning of link targets) are listed known findings with heuristic classifiers; wildcard expansion through symlinked directories is not modelled by the reference.",
         ref="4 C18"),
     "C04": dict(
         category="fault_enumeration",
         technique="rapid-drawn base cases, then exhaustive enumeration of the fault position k for every fault kind through harness-owned stream/source/callback hooks; termination decided by goroutine-dump quiescence under an explicit transport model; C01's snapshot oracle for 'no false success' and for the follow-up transfer",
-        text="For each generated base case (small trees and 150-300-file fan-out, capacities 0/1/32, fresh and dirty destinations, notify on/off) one fault-free run counts the operations; then every position k is run for each kind: stream broken at the k-th SendMsg/RecvMsg of either endpoint, either call's context cancelled after its k-th packet, walk error at entry k, read error after j bytes of file k, ContentHasher/NotifyHashed error at call k. The harness tears an endpoint down only by the fault, its context, or the peer's return; a run is 'stuck' iff every goroutine with an fsutil frame is blocked with an unchanged stack (no wall-clock verdict). Checked per run: both calls return, no fsutil goroutine survives, Receive==nil implies destination equals source, Send==nil implies the receiver's FIN reached it, and a follow-up fault-free transfer into the leftovers succeeds and converges. Exhaustive in k for small cases, strided for large fan-out in the quick tier; schedules are perturbed, not enumerated.",
+        text="For each generated base case (small trees and 150-300-file fan-out, capacities 0/1/32, fresh and dirty destinations, notify on/off) one fault-free run counts the operations; then every position k is run for each kind: stream broken at the k-th SendMsg/RecvMsg of either endpoint, either call's context cancelled after its k-th packet, walk error at entry k, read error after j bytes of file k, ContentHasher/NotifyHashed error at call k, and the peer dying right before its k-th packet gets through with the transport reporting a clean io.EOF. The harness tears an endpoint down only by the fault, its context, or the peer's return; a run is 'stuck' iff every goroutine with an fsutil frame is blocked with an unchanged stack (no wall-clock verdict). Checked per run: both calls return, no fsutil goroutine survives, Receive==nil implies destination equals source, Send==nil implies the receiver's FIN reached it, and a follow-up fault-free transfer into the leftovers succeeds and converges. Exhaustive in k for small cases, strided for large fan-out in the quick tier; schedules are perturbed, not enumerated.",
         note="Includes SIGKILL of a receiving sub-process at drawn packet positions. Liveness by quiescence cannot see a livelock (no retry loops exist). The thorough tier also runs half of the shards under the race detector.",
         ref="4 C04"),
     "C08": dict(
